@@ -180,11 +180,17 @@ STEP_BUDGET = 20_000_000
 def bounded(fn, ctx, label):
     """Termination monitor: wall-clock watchdog first (cheap), logical-step budget as the
     deciding re-run.  Returns ('ok', v) | ('exc', e) | ('nonterm', steps) | ('inconclusive', None)."""
-    r = with_watchdog(fn, 10)
+    from . import core
+    r = with_watchdog(lambda: core.call(fn), 10)
+    if r[0] == 'ok':
+        r = r[1]            # ('ok', v) | ('exc', e) from core.call (which puts the call under the CPU budget as well)
+        if r[0] == 'exc' and isinstance(r[1], core.CpuBudgetExceeded):
+            return ('nonterm', str(r[1]))
+        return r
     if r[0] != 'slow':
         return r
     ctx.mon('termination:watchdog-tripped')
-    r2 = with_watchdog(lambda: count_steps(fn, STEP_BUDGET), 600)
+    r2 = with_watchdog(lambda: count_steps(lambda: core.call(fn), STEP_BUDGET), 900)
     if r2[0] == 'slow':
         return ('inconclusive', None)
     if r2[0] == 'exc':
@@ -193,6 +199,12 @@ def bounded(fn, ctx, label):
     ctx.mon('termination:step-counted-rerun')
     if kind == 'budget':
         return ('nonterm', steps)
+    if kind == 'ok':
+        if val[0] == 'exc' and isinstance(val[1], core.CpuBudgetExceeded):
+            # no budget of Python lines was exceeded, yet the call burnt its CPU budget: the time goes where no line event fires (the
+            # regular-expression engine, a C-level loop)
+            return ('nonterm', '%s after %d line events' % (val[1], steps))
+        return val
     return (kind, val)
 
 
